@@ -202,7 +202,17 @@ pub fn explore(sc: &Scenario, cfg: &Config) -> Report {
                 if let Some((loc, msg)) = harness_panic {
                     rt::inconclusive(&format!("harness panicked at {}: {} (choices {:?})", loc, msg, rtx.choices));
                 }
-                let pts: Vec<(Sig, u32)> = rtx.points.iter().map(|p| (p.sig.clone(), p.taken)).collect();
+                let mut pts: Vec<(Sig, u32)> = rtx.points.iter().map(|p| (p.sig.clone(), p.taken)).collect();
+                let forced = rtx.forced_prefix();
+                if pts.len() < forced.len() {
+                    // the path stopped before it reached the decision it was forked for
+                    match &outcome {
+                        // a violation raised by nondeterministic library behaviour (e.g. a random salt length under a defect):
+                        // the violation stands (it is replayed natively); the path keeps its place in the decision tree
+                        Outcome::Viol { .. } => { pts = forced; }
+                        _ => rt::inconclusive(&format!("scenario is not deterministic under re-execution: path ended after {} of {} forced decisions", pts.len(), forced.len())),
+                    }
+                }
                 max_depth = max_depth.max(pts.len());
                 max_syms = max_syms.max(rtx.nsyms());
                 if let Ok(v) = std::env::var("SYMORD_DEBUG_SYMS") { if rtx.nsyms() >= v.parse().unwrap_or(99) { eprintln!("DEBUG syms={} choices={:?} notes={:?} hook_calls={}", rtx.nsyms(), rtx.choices, rtx.notes, rtx.path_hook_calls); } }
